@@ -64,6 +64,24 @@ func (f *g2lFn) compileBody(monad string) (lines []string) {
 	default:
 		f.retType = "(" + strings.Join(rts, " × ") + ")"
 	}
+	f.labels = map[string]int{}
+	for i, st := range f.fd.Body.List {
+		if ls, ok := st.(*ast.LabeledStmt); ok {
+			f.labels[ls.Label.Name] = i
+		}
+	}
+	f.inoutName, f.inoutIdx = "", 0
+	if pn, ok := f.u.inout[f.goName]; ok {
+		for i, p := range f.params() {
+			if p.name == leanIdent(pn) {
+				f.inoutName, f.inoutIdx = p.name, i
+				f.retType = "(" + f.retType + " × " + p.typ + ")"
+			}
+		}
+		if f.inoutName == "" {
+			f.bad(f.fd, "in-out parameter %s not found", pn)
+		}
+	}
 	f.effType = f.u.effFns[f.goName]
 	if f.effType != "" {
 		f.retType = "(" + f.retType + " × List " + f.effType + ")"
@@ -87,6 +105,7 @@ func (f *g2lFn) compileBody(monad string) (lines []string) {
 		f.bad(f.fd, "control reaches the end of a function with results")
 		return nil
 	}
+	f.endK = end
 	return append(lines, f.stmts(f.fd.Body.List, end)...)
 }
 
